@@ -26,11 +26,11 @@ import (
 
 func init() {
 	Register(&Scenario{
-		Name: "requests", Props: []string{"C10"}, CrashTo: "C10",
+		Name: "requests", Knobs: true, Props: []string{"C10"}, CrashTo: "C10",
 		Horizon: 3 * time.Hour, MaxSteps: 2000000, Weight: 1, Main: requestsMain,
 	})
 	Register(&Scenario{
-		Name: "lifecycle", Props: []string{"C17"}, CrashTo: "",
+		Name: "lifecycle", Knobs: true, Props: []string{"C17"}, CrashTo: "",
 		Horizon: 3 * time.Hour, MaxSteps: 2000000, Weight: 1, Main: lifecycleMain,
 	})
 }
@@ -141,6 +141,13 @@ func (e *reqEnv) consumer(c int, nops int) {
 			i := st.Choice(np)
 			prio := int8(simrt.Pick(st, 1, 0, -1, 2, 5))
 			want := st.Bool(2, 3)
+			if st.Bool(1, 3) && !t.Pieces.Complete(uint32(i)) {
+				// aim: issue the request while the piece is being verified,
+				// the window in which request and completion cross
+				if simrt.AwaitStep(func() bool { return t.Pieces.SimState(i) == 2 }, time.Duration(1+st.Choice(30))*time.Second) {
+					simrt.Probe("request-aimed-at-a-piece-being-hashed")
+				}
+			}
 			ok, ch, err := t.Request(uint32(i), prio, true, want)
 			tick := rc.Tick()
 			if err != nil {
@@ -196,8 +203,25 @@ func (e *reqEnv) consumer(c int, nops int) {
 		}
 		_, _, timedOut := chRecvTimeout(h.w.ch, 300*time.Second)
 		if timedOut {
-			rc.Fail("C10", "liveness", "", "consumer %d still waits for piece %d 300 s after faults stopped, with an honest unchoking seed connected (piece complete now: %v)", c, h.piece, t.Pieces.Complete(uint32(h.piece)))
-			return
+			infl := t.SimInFlight()
+			cpp := e.spec.ChunksPerPiece()
+			lo, hi := h.piece*cpp, min((h.piece+1)*cpp, len(infl))
+			var ps []string
+			for _, p := range t.SimPeers() {
+				q, o := p.SimRequests()
+				ps = append(ps, fmt.Sprintf("{unchoked=%v queued=%v outstanding=%v commands=%d pending=%d}", p.SimUnchoked(), q, o, p.SimCommands(), p.SimPending()))
+			}
+			prios, _ := t.SimRequested()
+			if t.Pieces.Complete(uint32(h.piece)) {
+				rc.Fail("C10", "lost-wakeup", "at-the-end", "consumer %d still waits for piece %d 300 s after faults stopped although the piece is verified: its wake-up was lost", c, h.piece)
+				return
+			}
+			// the piece was never fetched: no wake-up is owed (C10 is
+			// silent on that); it is the stream that stalls, which is
+			// C02's liveness clause - recorded as a cross observation here
+			rc.Fail("C02", "liveness", "piece-never-fetched", "consumer %d still waits for piece %d 300 s after faults stopped, with an honest unchoking seed connected, and the piece is not there; in-flight counts of its blocks %v, requested priorities %v, peers %v", c, h.piece, infl[lo:hi], prios[uint32(h.piece)], ps)
+			simrt.Probe("piece-never-fetched")
+			break
 		}
 		e.observeWake(h.w)
 	}
@@ -354,9 +378,20 @@ func lifecycleMain(rc *RunCtx) {
 	w := NewWorld(rc)
 	defer w.Shutdown()
 	magnet := st.Bool(1, 4)
-	spec := GenTorSpec(st, SpecOpts{MaxPieces: 6, MultiFile: 1})
+	// bulk: a torrent of ten or so megabytes fetched at full speed from
+	// seeds with deep queues, so that hundreds of requests are queued or
+	// outstanding when the torrent is deleted
+	bulk := !magnet && st.Bool(1, 12)
+	opts := SpecOpts{MaxPieces: 6, MultiFile: 1, Huge: !magnet, HugeOdds: 16}
+	if bulk {
+		opts = SpecOpts{MultiFile: 1, PieceCounts: []int{40, 56, 72}, PieceSize: 256 << 10}
+	}
+	spec := GenTorSpec(st, opts)
 	config.SetIdleRate(uint32(simrt.Pick(st, 65536, 0)))
 	config.MemoryMark = spec.Geo.PieceSize * 3
+	if bulk {
+		config.MemoryMark = 1 << 30
+	}
 	actx, acancel := context.WithCancel(context.Background())
 	var t *tor.Torrent
 	{
@@ -377,12 +412,37 @@ func lifecycleMain(rc *RunCtx) {
 		w.Torrents = append(w.Torrents, t)
 	}
 	w.Link = func() (simnet.LinkCfg, simnet.LinkCfg) { return drawSysLink(st) }
+	killed := false
+	killedFlag := func() bool { return killed }
 	npeers := st.Choice(5)
+	if spec.Sparse || bulk {
+		npeers = 2 + st.Choice(4)
+	}
 	for i := 0; i < npeers; i++ {
 		cfg := drawSeedCfg(st, fmt.Sprintf("peer%d", i), 7000+i)
 		if st.Bool(1, 3) {
 			cfg.Interested = true
 			cfg.Have = func(int) bool { return false }
+		}
+		if bulk {
+			cfg.Have = func(int) bool { return true }
+			cfg.Interested = false
+			cfg.Reqq = simrt.Pick(st, 2000, 250, 500)
+			cfg.Ext = true
+			cfg.UnchokeAfter = 0
+			cfg.AnswerDelay = nil
+			cfg.AnswerWeights = nil
+		}
+		if spec.Sparse {
+			// peers that claim all of a huge torrent, accept deep pipelines
+			// and never deliver: hundreds of requests are outstanding when
+			// the torrent is deleted
+			cfg.Have = func(int) bool { return true }
+			cfg.HaveUnverifiable = true
+			cfg.Ext = true
+			cfg.Reqq = simrt.Pick(st, 250, 500, 2000)
+			cfg.AnswerWeights = []int{0, 0, 1, 0, 0, 0, 0, 0, 0, 0}
+			cfg.UnchokeAfter = 0
 		}
 		p := w.NewPeer(spec, cfg)
 		if st.Bool(1, 2) {
@@ -391,7 +451,24 @@ func lifecycleMain(rc *RunCtx) {
 			t.AddKnown(p.Addr, nil, "", known.Tracker)
 		}
 	}
-	if !magnet && st.Bool(1, 2) {
+	if bulk {
+		simrt.GoNamed("demand", func() {
+			for i := 0; i < spec.Geo.NPieces && !killedFlag(); i++ {
+				t.Request(uint32(i), int8(1+st.Choice(2)), true, false)
+			}
+			simrt.Probe("bulk-download")
+		})
+	}
+	if spec.Sparse {
+		simrt.GoNamed("demand", func() {
+			simrt.Sleep(time.Duration(st.Choice(3000)) * time.Millisecond)
+			for i, n := 4, 50+st.Choice(400); n > 0 && !killedFlag(); i, n = i+1, n-1 {
+				t.Request(uint32(i), int8(st.Choice(2)), true, false)
+			}
+			simrt.Probe("demand-for-hundreds-of-pieces")
+		})
+	}
+	if !magnet && !spec.Sparse && !bulk && st.Bool(1, 2) {
 		var held []int
 		for i := 0; i < spec.Geo.NPieces; i++ {
 			if st.Bool(1, 2) {
@@ -400,14 +477,13 @@ func lifecycleMain(rc *RunCtx) {
 		}
 		w.Preload(t, spec, held)
 	}
-	killed := false
 	var killReturned time.Time
 	ncallers := 4 + st.Choice(7)
 	type callRec struct {
-		caller   int
-		op       string
-		started  time.Duration
-		returned bool
+		caller    int
+		op        string
+		started   time.Duration
+		returned  bool
 		afterKill bool
 	}
 	var calls []*callRec
